@@ -93,6 +93,7 @@ def pDraw : P (Draw Float) := do
   let m ← pMany pFloat 6
   let closed ← pBool
   let pid ← pNat
+  let oe ← pBool
   match m with
   | [a, b, _, c, d, _] =>
     -- Matrix.IsSimilarity and Det (util.go): m = [[a b _] [c d _]]
@@ -102,7 +103,7 @@ def pDraw : P (Draw Float) := do
     let sim := goEqual s1 s2 && goEqual s3 0.0
     let det := a * d - b * c
     pure { fill, stroke, width, cap, join, dashOff := off, dashes, evenOdd := eo, sim, scale := Float.sqrt (Float.abs det),
-           closed, pid }
+           closed, pid, outlineEmpty := oe }
   | _ => failure
 
 def pDictEntry : P (String × String) := do
